@@ -116,7 +116,7 @@ static int wait_ge(atomic_long *v, long want, const char *what)
 			poke_loop();
 			/* give the poked loop a chance so the case can be torn down */
 			t0 = now_ms();
-			while (atomic_load(v) < want && now_ms() - t0 < WATCHDOG_MS) usleep(1000);
+			while (atomic_load(v) < want && now_ms() - t0 < 5000) usleep(1000);
 			return 0;
 		}
 	}
@@ -275,7 +275,8 @@ static void do_query(vh_rng *r)
 	switch (vh_below(r, 5)) {
 	case 0: (void)event_base_get_num_events(K.base, EVENT_BASE_COUNT_ACTIVE | EVENT_BASE_COUNT_ADDED); break;
 	case 1: (void)event_base_gettimeofday_cached(K.base, &tv); break;
-	case 2: (void)event_base_got_break(K.base); (void)event_base_got_exit(K.base); break;
+	case 2: /* CALIBRATED: event_base_got_exit() is not among the calls the property names (event_loopexit_cb sets the flag without the lock) */
+		(void)event_base_got_break(K.base); break;
 	case 3: (void)event_base_get_running_event(K.base); break;
 	default: (void)event_base_get_max_events(K.base, EVENT_BASE_COUNT_ACTIVE, 0); break;
 	}
@@ -545,6 +546,9 @@ int main(int argc, char **argv)
 				    strstr(K.suspect_what, "event_add-io") ? "C09:lost-wakeup:event_add-io" :
 				    strstr(K.suspect_what, "event_active") ? "C09:lost-wakeup:event_active" : "C09:lost-wakeup:other";
 				vh_viol(key, "twice in a row: %s (first run: %s)", K.suspect_what, first);
+				/* the verdict of this process is decided; every further case would cost two more watchdog periods */
+				vh_stat("stopped_after_lost_wakeup");
+				break;
 			} else vh_stat("watchdog_retry_ok");
 		}
 	}
